@@ -136,17 +136,18 @@ def load_prop(pid):
 # classification of exceptions: library code vs harness code
 # --------------------------------------------------------------------------------------------------
 def exc_origin(e):
-    """Returns ("library", "<file>:<func>") when the innermost frame of the traceback that belongs to
-    either the harness or the library belongs to the library (desolver), else ("harness", ...)."""
+    """("library", "<file>:<func>") when the innermost traceback frame that belongs to either the harness or the
+    library belongs to the library (desolver); ("harness", ...) when it belongs to the harness (pbt) - i.e. who
+    raised, ignoring numpy/scipy frames below."""
     tb = traceback.extract_tb(e.__traceback__)
-    lib = None
+    who, where = "harness", (tb[-1].name if tb else "?")
     for fr in tb:
         fn = fr.filename
-        if "/desolver/" in fn and "/pbt/" not in fn:
-            lib = "{}:{}".format(os.path.basename(fn), fr.name)
-    if lib is not None:
-        return "library", lib
-    return "harness", (tb[-1].name if tb else "?")
+        if "/pbt/" in fn or "/verif/" in fn:
+            who, where = "harness", "{}:{}".format(os.path.basename(fn), fr.name)
+        elif "/desolver/" in fn:
+            who, where = "library", "{}:{}".format(os.path.basename(fn), fr.name)
+    return who, where
 
 
 def exc_sig(e):
@@ -321,7 +322,7 @@ def _shard_worker(args):
                     suppressed_hits=0, inconclusive=[], samples=[], metrics={}, counts=collections.Counter())
 
 
-def _hypothesis_rounds(ctx, part, n_examples, hseed, max_rounds=6):
+def _hypothesis_rounds(ctx, part, n_examples, hseed, max_rounds=4):
     """Run the strategy; on an unknown violation let Hypothesis shrink it (bounded), record it,
     suppress its bucket and continue with what is left of the budget."""
     import hypothesis
@@ -452,7 +453,7 @@ def run_property(pid, tier, seed, only_part=None):
     _merge(total, rctx.export())
     part_stats["replay_corpus"] = dict(evaluations=nreplay)
 
-    shrink_budget = 60.0 if tier == "quick" else 240.0
+    shrink_budget = 20.0 if tier == "quick" else 120.0
     jobs = []
     for part in parts:
         ns = part.shards or NPROC
